@@ -169,17 +169,37 @@ Section HM.
       assert (L2 : m_lsm m2 = repeat 1 (npoints (h_elec s2'))) by (unfold m2; cbn [m_lsm with_pin with_pout]; rewrite L1, N2; exact L).
       assert (Hn2 : (0 < npoints (h_elec s2'))%nat) by (rewrite N2; exact Hn).
       destruct (ebalance_given_machine (h_elec s2') e3 j m2 E3 Hm2 K2 L2 Hn2) as [m3 [Hm3 [_ [_ [_ [_ [_ [_ F3]]]]]]]].
-      assert (TL : l_machine (h_line (to_line {| h_elec := e3; h_line := h_line s2'; h_j := j |}))
-                   = Some {| p_shaft := map numq (m_pout m3); p_full := p_full p; p_elec := map numq (m_pin m3) |}).
-      { unfold to_line, shared_comp. cbn [h_elec h_j h_line]. rewrite Hm3, S2l, M2. cbn [l_machine h_line p_full]. reflexivity. }
-      eexists. split; [exact TL|]. split; [reflexivity|]. intros t Ht. cbv zeta. cbn [p_elec p_shaft].
-      rewrite !nth_map_numq. rewrite N2 in F3. destruct (F3 t Ht) as [Fp Fo]. rewrite Fp, Fo.
+      set (s3 := to_line {| h_elec := e3; h_line := h_line s2'; h_j := j |}) in *.
+      assert (S3l : h_line s3 = {| l_lds := l_lds (h_line s);
+                                   l_machine := Some {| p_shaft := map numq (m_pout m3); p_full := p_full p; p_elec := map numq (m_pin m3) |};
+                                   l_engs := l_engs line2 |}).
+      { unfold s3, to_line, shared_comp. cbn [h_elec h_j h_line]. rewrite Hm3, S2l, M2.
+        assert (D2 : l_lds line2 = l_lds (h_line s)).
+        { transitivity (l_lds line1); [reflexivity|rewrite S1l; reflexivity]. }
+        rewrite D2. cbn [p_full]. reflexivity. }
+      assert (P3 : lpoints (h_line s3) = n) by (rewrite S3l; exact Hl).
+      set (sh4 := map (fun t => pti_out (line_at (h_line s3) t)) (seq 0 n)).
+      assert (M4 : l_machine (lbalance to_elec (h_line s3)) = Some {| p_shaft := sh4; p_full := p_full p; p_elec := map to_elec sh4 |}).
+      { rewrite lbalance_machine. rewrite S3l at 1. cbn [l_machine]. cbv zeta. rewrite P3. cbn [p_full]. reflexivity. }
+      assert (Lsh4 : length sh4 = n) by (unfold sh4; rewrite map_length, seq_length; reflexivity).
+      eexists. split.
+      { unfold to_elec_side. cbn [h_line]. rewrite M4. cbn [h_line]. exact M4. }
+      split; [reflexivity|]. intros t Ht. cbv zeta. cbn [p_elec p_shaft].
+      rewrite N2 in F3. destruct (F3 t Ht) as [Fp Fo].
       assert (P2 : nth t (m_pin m2) NonFinite = Fin (to_elec (nth t sh2 0))).
       { unfold m2. cbn [m_pin with_pin with_pout]. rewrite nth_map_Fin by (rewrite map_length, Lsh; exact Ht).
         rewrite nth_indep with (d' := to_elec 0) by (rewrite map_length, Lsh; exact Ht). rewrite (map_nth to_elec). reflexivity. }
-      rewrite P2, (SH t Ht). cbn [numq].
-      unfold elec_final, shaft_final, e2. cbn [h_any_full h_bal andb].
-      split; [reflexivity|]. unfold ts. reflexivity.
+      assert (SH4 : nth t sh4 0 = shaft_final (ts j) to_elec {| h_e0 := numq (nth t (m_pin m) NonFinite); h_load := load_sum (line_at (h_line s) t);
+                    h_full := nth t (p_full p) false; h_any_full := true; h_bal := false |}).
+      { unfold sh4. rewrite (nth_map_seq _ n t 0 Ht). unfold pti_out, shaft_final, elec_mid, e2. cbn [h_any_full h_full h_load h_bal].
+        rewrite S3l. unfold line_at at 1. cbn [l_machine l_pti p_shaft p_full].
+        rewrite nth_map_numq, Fo, P2, (SH t Ht). cbn [numq].
+        destruct (nth t (p_full p) false); [|unfold ts; reflexivity].
+        unfold load_sum, line_at. cbn [l_loads l_lds]. reflexivity. }
+      split.
+      + rewrite nth_indep with (d' := to_elec 0) by (rewrite map_length, Lsh4; exact Ht). rewrite (map_nth to_elec), SH4.
+        unfold elec_final. cbn [h_any_full]. reflexivity.
+      + exact SH4.
     - injection HB as <-. eexists. split; [rewrite S2l; exact M2|]. split; [reflexivity|]. intros t Ht. cbv zeta. cbn [p_elec p_shaft].
       rewrite nth_indep with (d' := to_elec 0) by (rewrite map_length, Lsh; exact Ht). rewrite (map_nth to_elec), (SH t Ht).
       unfold elec_final, shaft_final, e2. cbn [h_any_full h_bal andb]. split; reflexivity.
